@@ -520,4 +520,136 @@ theorem cov_dop_mux (f : Nat) (bp swBp : Nat) (swBit : Option Nat) (swDop : Dop)
         · exact hcase key dn cd rfl (.inr ⟨hk, rfl⟩) _ (fun _ => by nolog') h3
     all_goals exact hfirst e h2
 
+/-! ### the DYNAMIC-ENDMARKER-FIELD loop -/
+
+/-- the probe of the loop, as the instrumented decoder runs it -/
+def probeOfL (f : Nat) (tv : IVal) (tdop : Dop) : LogM Bool :=
+  probeL (do let x ← decodeDopL f tdop
+             pure (match x with | .atom v => v == tv | _ => false))
+    (fun e => e = .decode ∨ e = .mismatch) (fun _ => pure false)
+
+/-- every entry the probe adds is tagged -/
+theorem probe_entries (f : Nat) (tv : IVal) (tdop : Dop) (ihd : Cov f (.dop tdop) (decodeDopL f tdop)) (ls : LState) (e : LEntry)
+    (he : e ∈ resLog (probeOfL f tv tdop ls true)) : e ∈ ls.log ∨ e.probe = true := by
+  have hin : ∀ e ∈ resLog ((decodeDopL f tdop >>= fun x => (pure (match x with | .atom v => v == tv | _ => false) : LogM Bool))
+      { ls with probe := true } true), e ∈ ls.log ∨ e.probe = true := fun e he =>
+    (ihd.bind_nolog (fun _ => nolog_pure _) _ e he).imp id fun h => h.1 rfl
+  unfold probeOfL probeL at he
+  cases hm : (decodeDopL f tdop >>= fun x => (pure (match x with | .atom v => v == tv | _ => false) : LogM Bool))
+      { ls with probe := true } true with
+  | ok p =>
+    obtain ⟨a, l1⟩ := p
+    have := hin e
+    rw [hm] at this he
+    exact this he
+  | error x =>
+    obtain ⟨e0, l0⟩ := x
+    have := hin e
+    rw [hm] at this he
+    simp only [] at he
+    split at he
+    · exact this he
+    · exact this he
+
+/-- a probe that returns: the ghost flag and the message are as before, and if it did not find the end marker the model's probe
+    missed (`ProbeMiss` of W19) with the erased final state -/
+theorem probe_ok (f : Nat) (tv : IVal) (tdop : Dop) (ls ls1 : LState) (hit : Bool)
+    (h : probeOfL f tv tdop ls true = .ok (hit, ls1)) :
+    ls1.probe = ls.probe ∧ ls1.st.msg = ls.st.msg ∧ (hit = false → ProbeMiss true f tv tdop ls.st ls1.st) := by
+  unfold probeOfL probeL at h
+  have her := (erases_decode_all f).1 tdop
+  unfold Erases at her
+  have her := her { ls with probe := true } true
+  have hk := (keeps_decode_all f).1 tdop
+  simp only [bind, run_bind] at h
+  cases hm : decodeDopL f tdop { ls with probe := true } true with
+  | ok p =>
+    obtain ⟨x, l1⟩ := p
+    rw [hm] at h her
+    have hx : decodeDop f tdop ls.st true = .ok (x, l1.st) := her.symm
+    simp only [] at h
+    injection h with h
+    injection h with h1 h2
+    subst h2
+    refine ⟨rfl, hk.ok hx, fun hh => .other x l1.st hx ?_⟩
+    intro v hv
+    subst hv
+    rw [← h1] at hh
+    exact hh
+  | error p =>
+    obtain ⟨err, l1⟩ := p
+    rw [hm] at h her
+    have hx : decodeDop f tdop ls.st true = .error (err, l1.st) := her.symm
+    simp only [] at h
+    by_cases hc : err = Err.decode ∨ err = Err.mismatch
+    · simp only [hc, decide_true, if_true] at h
+      injection h with h
+      injection h with h1 h2
+      subst h2
+      exact ⟨rfl, hk.error hx, fun _ => .raised err l1.st hx hc⟩
+    · simp only [hc, decide_false, Bool.false_eq_true, if_false] at h
+      cases h
+
+theorem decodeUntilMarkerL_eq (f : Nat) (tv : IVal) (tdop item : Dop) : decodeUntilMarkerL tv tdop item (f + 1) = (do
+    let s ← getD
+    if s.cursorByte = s.msg.length then pure []
+    else
+      let hit ← probeOfL f tv tdop
+      modD fun s' => { s' with cursorByte := s.cursorByte }
+      if hit then pure []
+      else do
+        let x ← decodeDopL f item
+        let s' ← getD
+        if s'.cursorByte ≤ s.cursorByte then raise .decode
+        else do
+          let rest ← decodeUntilMarkerL tv tdop item f
+          pure (x :: rest)) := rfl
+
+theorem cov_untilMarker (f : Nat) (tv : IVal) (tdop item : Dop) (ihd : ∀ d, Cov f (.dop d) (decodeDopL f d))
+    (ihm : Cov f (.untilMarker tv tdop item) (decodeUntilMarkerL tv tdop item f)) :
+    Cov (f + 1) (.untilMarker tv tdop item) (decodeUntilMarkerL tv tdop item (f + 1)) := by
+  intro ls e he
+  rw [decodeUntilMarkerL_eq] at he
+  have h1 := mem_getD_bind he
+  by_cases hne : ls.st.cursorByte = ls.st.msg.length
+  · rw [if_pos hne] at h1; exact .inl h1
+  · rw [if_neg hne] at h1
+    have tagged : ∀ e : LEntry, (e ∈ ls.log ∨ e.probe = true) → e ∈ ls.log ∨ SiteReq (f + 1) (.untilMarker tv tdop item) ls e :=
+      fun e h => h.imp id fun ht => ⟨fun _ => ht, .inl ht⟩
+    rcases mem_bind_split h1 with ⟨err, ls1, hrun, h2⟩ | ⟨hit, ls1, hrun, h2⟩
+    · exact tagged e (probe_entries f tv tdop (ihd tdop) ls e (by rw [hrun]; exact h2))
+    · have hold : ∀ e ∈ ls1.log, e ∈ ls.log ∨ SiteReq (f + 1) (.untilMarker tv tdop item) ls e := fun e he =>
+        tagged e (probe_entries f tv tdop (ihd tdop) ls e (by rw [hrun]; exact he))
+      obtain ⟨hp1, hm1, hmiss⟩ := probe_ok f tv tdop ls ls1 hit hrun
+      have h3 := mem_modD_bind h2
+      cases hit with
+      | true =>
+        simp only [if_true] at h3
+        exact hold e h3
+      | false =>
+        have hprobe := hmiss rfl
+        simp only [Bool.false_eq_true, if_false] at h3
+        have hhead : ∀ e : LEntry, SiteReq f (.dop item) { ls1 with st := { ls1.st with cursorByte := ls.st.cursorByte } } e →
+            SiteReq (f + 1) (.untilMarker tv tdop item) ls e := fun e h =>
+          h.lift hp1 hm1 fun dr bl hr => .markHead f tv tdop item ls.st ls1.st dr bl hne hprobe hr
+        rcases mem_bind_split h3 with ⟨err, ls2, hrun2, h4⟩ | ⟨x, ls2, hrun2, h4⟩
+        · rcases (ihd item).of_error hrun2 h4 with h | h
+          · exact hold e h
+          · exact .inr (hhead e h)
+        · obtain ⟨hx2, hp2, hm2⟩ := subDop f item hrun2
+          have hmid : ∀ e ∈ ls2.log, e ∈ ls.log ∨ SiteReq (f + 1) (.untilMarker tv tdop item) ls e := by
+            intro e he
+            rcases (ihd item).of_ok hrun2 he with h | h
+            · exact hold e h
+            · exact .inr (hhead e h)
+          have h5 := mem_getD_bind h4
+          by_cases hadv : ls2.st.cursorByte ≤ ls.st.cursorByte
+          · rw [if_pos hadv] at h5; exact hmid e h5
+          · rw [if_neg hadv] at h5
+            have h6 := mem_bind_nolog (m := decodeUntilMarkerL tv tdop item f) (fun _ => nolog_pure _) h5
+            rcases ihm ls2 e h6 with h | h
+            · exact hmid e h
+            · exact .inr (h.lift (hp2.trans hp1) (hm2.trans hm1) fun dr bl hr =>
+                .markTail f tv tdop item ls.st ls1.st ls2.st dr x bl hne hprobe hx2 (by omega) hr)
+
 end OdxVerif.Codec
